@@ -734,3 +734,158 @@ func relWord(r int) string {
 	}
 	return "above"
 }
+
+// runMetaOps: the counters and flags the cache exports live in metadata.Metadata; every statement the
+// property makes about them ("counted in exactly one of ...", "leaf count equals added minus deleted")
+// presupposes that the store itself is faithful: AddInt adds its argument to the entry of its key,
+// Set* store their argument under their key, Get* return what is stored under their key (or the
+// "unset" error), and an unregistered key changes nothing.
+func runMetaOps(c *Ctx) {
+	P := c.P
+	c.Rule("C15.meta-ops", "metadata.Metadata, per operation and per scenario (key registered / not registered; entry present / absent for the getters): an unregistered key returns an error and neither reads nor writes the value maps; AddInt stores old-value-of-that-key + argument under that key; SetInt / SetBool / SetStr store the argument under the key; GetInt / GetBool / GetStr return the entry of the key and a nil error when present, the zero value and ErrUnsetValue when absent")
+	type op struct {
+		name, kind, valid, field string
+	}
+	ops := []op{
+		{"AddInt", "add", "validInt", "valuesInt"}, {"SetInt", "set", "validInt", "valuesInt"}, {"GetInt", "get", "validInt", "valuesInt"},
+		{"SetBool", "set", "validBool", "valuesBool"}, {"GetBool", "get", "validBool", "valuesBool"},
+		{"SetStr", "set", "validStr", "valuesStr"}, {"GetStr", "get", "validStr", "valuesStr"},
+	}
+	n := 0
+	for _, o := range ops {
+		f := P.Method("metadata", "Metadata", o.name)
+		fld := P.Field("metadata", "Metadata", o.field)
+		if f == nil || fld == nil || len(f.Params) < 2 {
+			c.Unresolved("C15.meta-ops", "metadata.(*Metadata)."+o.name+" / Metadata."+o.field)
+			continue
+		}
+		c.Analysed(fnName(f))
+		keyP := ssa.Value(param(f, 1))
+		isValidCall := func(v ssa.Value) bool {
+			call, ok := v.(*ssa.Call)
+			if !ok {
+				return false
+			}
+			g := staticCallee(&call.Call)
+			return g != nil && pkgPathOf(g) == pkgPathOf(f) && strings.HasPrefix(fbase(g), "valid")
+		}
+		for _, registered := range []bool{true, false} {
+			for _, present := range []bool{true, false} {
+				if o.kind != "get" && !present {
+					continue
+				}
+				e := &PPA{TraceLookups: true, Opaque: map[*ssa.Function]bool{}, Watch: func(ev *Ev) bool {
+					return strings.HasPrefix(ev.Label, "mapupdate:") || strings.HasPrefix(ev.Label, "lookup:") || ev.Label == "fact" || ev.Label == "builtin:delete"
+				}, Probe: func(e *PPA, st *State, fr *Frame, in ssa.Instruction) {
+					if mu, ok := in.(*ssa.MapUpdate); ok {
+						e.emit(st, Ev{Label: "fact", In: in, F: fr, Note: "val=" + latShape(e, st, RV{fr, mu.Value}, 0) + " key=" + latShape(e, st, RV{fr, mu.Key}, 0)})
+					}
+				}, Cond: func(e *PPA, st *State, rv RV) (bool, bool) {
+					r := e.Resolve(st, rv)
+					switch v := r.V.(type) {
+					case *ssa.BinOp:
+						if v.Op != token.EQL && v.Op != token.NEQ {
+							return false, false
+						}
+						for _, pr := range [][2]ssa.Value{{v.X, v.Y}, {v.Y, v.X}} {
+							if isNilConst(pr[1]) && isValidCall(e.Resolve(st, RV{r.F, pr[0]}).V) {
+								return registered == (v.Op == token.EQL), true
+							}
+						}
+					case *ssa.Extract:
+						if lk, ok := v.Tuple.(*ssa.Lookup); ok && v.Index == 1 && loadOfField(lk.X, fld) {
+							return present, true
+						}
+					}
+					return false, false
+				}}
+				// the validity helpers are judged by their result only
+				for _, g := range P.PkgFuncs("metadata") {
+					if strings.HasPrefix(fbase(g), "valid") {
+						e.Opaque[g] = true
+					}
+				}
+				e.Run(f)
+				c.Paths += len(e.Paths)
+				c.Scen++
+				sc := fmt.Sprintf("%s, key registered=%v", o.name, registered)
+				if o.kind == "get" {
+					sc += fmt.Sprintf(", entry present=%v", present)
+				}
+				for i := range e.Paths {
+					p := &e.Paths[i]
+					if p.End != "return" {
+						continue
+					}
+					n++
+					touches := 0
+					var upd *Ev
+					var fact string
+					for j := range p.Trace {
+						ev := &p.Trace[j]
+						switch {
+						case strings.HasPrefix(ev.Label, "mapupdate:") && ev.Field == fld:
+							touches++
+							upd = ev
+						case strings.HasPrefix(ev.Label, "lookup:") && ev.Field == fld, ev.Label == "builtin:delete":
+							touches++
+						case ev.Label == "fact":
+							fact = ev.Note
+						}
+					}
+					errRet := retClass(p.Rets[len(p.Rets)-1])
+					if !registered {
+						c.Check(touches == 0 && errRet != "nil", "C15.meta-ops", fnName(f), sc+": error, value map untouched", P.Pos(f.Pos()), fmt.Sprintf("returns %s, %d map operations; path: %s", errRet, touches, p.String()))
+						continue
+					}
+					switch o.kind {
+					case "set", "add":
+						want := "val=p:" + param(f, 2).Name() + " key=p:" + param(f, 1).Name()
+						if o.kind == "add" {
+							want = "val=(+ dyn p:" + param(f, 2).Name() + ") key=p:" + param(f, 1).Name()
+						}
+						// the old value of an add is the lookup of the same key in the same map
+						okOld := true
+						if o.kind == "add" {
+							okOld = false
+							for j := range p.Trace {
+								ev := &p.Trace[j]
+								if strings.HasPrefix(ev.Label, "lookup:") && ev.Field == fld && len(ev.Args) >= 2 && ev.Args[1].V == keyP {
+									okOld = true
+								}
+							}
+							fact = strings.Replace(fact, "?", "dyn", 1)
+						}
+						ok := upd != nil && len(upd.Args) >= 2 && upd.Args[1].V == keyP && okOld && normOld(fact) == want && errRet == "nil"
+						c.Check(ok, "C15.meta-ops", fnName(f), sc+": stored under the key", P.Pos(f.Pos()), fmt.Sprintf("%s, want %s; returns %s", normOld(fact), want, errRet))
+					case "get":
+						if present {
+							r0 := p.Rets[0].V
+							ex, isEx := r0.(*ssa.Extract)
+							var lk *ssa.Lookup
+							if isEx && ex.Index == 0 {
+								lk, _ = ex.Tuple.(*ssa.Lookup)
+							} else if l, isL := r0.(*ssa.Lookup); isL {
+								lk = l
+							}
+							ok := lk != nil && loadOfField(lk.X, fld) && lk.Index == keyP && errRet == "nil"
+							c.Check(ok, "C15.meta-ops", fnName(f), sc+": returns the entry of the key", P.Pos(f.Pos()), fmt.Sprintf("returns (%s, %s)", Expr(r0), errRet))
+						} else {
+							z := false
+							if k, ok := p.Rets[0].V.(*ssa.Const); ok {
+								z = k.Value == nil || k.IsNil() || k.Value.String() == "0" || k.Value.String() == "false" || k.Value.String() == `""`
+							}
+							c.Check(z && errRet == "global:ErrUnsetValue", "C15.meta-ops", fnName(f), sc+": zero value and ErrUnsetValue", P.Pos(f.Pos()), fmt.Sprintf("returns (%s, %s)", Expr(p.Rets[0].V), errRet))
+						}
+					}
+				}
+			}
+		}
+	}
+	c.Floor("C15.meta-ops/paths", n, 17)
+}
+
+// normOld rewrites the old-value operand of an add (a lookup, printed by latShape as "?" or "dyn") uniformly.
+func normOld(s string) string {
+	return strings.Replace(s, "(+ ? ", "(+ dyn ", 1)
+}
